@@ -198,6 +198,21 @@ def gen_session(r, name, kind=None):
         pool = [lambda: h_op(r, refs), lambda: v_op(r, names), lambda: sd_op(r, names), lambda: gr_op(r, names),
                 lambda: an_op(r, refs)]
         ops = [r.choice(pool)() for _ in range(r.choice([3, 5, 8]))]
+    if kind in FULL_KINDS and r.random() < 0.45:
+        # the session also READS old elements while it appends (e.g. to copy them): space is reserved, an old element
+        # is read, then the new one is written
+        olds = [o.split() for o in base if o.split()[0] == "put" and len(o.split()) == 4 and o.split()[3] != "-"]
+        hls = [o.split() for o in base if o.split()[0] == "hl"]
+        if olds:
+            for _ in range(r.choice([1, 2, 3])):
+                c = r.random()
+                if c < 0.55:
+                    tag = r.choice(HTAGS)
+                    g = r.choice(olds)
+                    ops.insert(r.randrange(len(ops) + 1), "cp %d %d %s %s" % (tag, refs.new(r, tag), g[1], g[2]))
+                else:
+                    g = r.choice(olds + hls)
+                    ops.insert(r.randrange(len(ops) + 1), "get %s %s" % (g[1], g[2]))
     if kind in FULL_KINDS and len(ops) >= 2 and r.random() < 0.3:
         ops.insert(r.randrange(1, len(ops)), "sync")
     return {"name": name, "kind": kind, "ndds": ndds, "base": base, "ops": ops}
@@ -214,7 +229,17 @@ def gen_refwrap(r, name):
         if flavour == "h" or (flavour == "hv" and r.random() < 0.5):
             return "putn 800 %s" % hexs(rbytes(r, 4))
         return v_op(r, names)
-    base = [one() for _ in range(r.randrange(ndds + 1, 3 * ndds + 2))]
+    base = []
+    if r.random() < 0.6:
+        # descriptors NOT in ascending order of their reference numbers: explicit refs 2..k+1 in a random order ...
+        k = r.randrange(3, 2 * ndds + 1)
+        perm = list(range(2, k + 2))
+        r.shuffle(perm)
+        base += ["put 800 %d %s" % (x, hexs(rbytes(r, 4))) for x in perm]
+    base += [one() for _ in range(r.randrange(ndds + 1, 3 * ndds + 2) - len(base) // 2)]
+    if flavour != "h" and r.random() < 0.6:
+        # ... or two Vgroups detached in the opposite order of their creation
+        base.insert(r.randrange(len(base) + 1), "vg2 ra%d rb%d rc %d" % (len(base), len(base), r.randrange(1, 30000)))
     base.append("put 803 65535 %s" % hexs(rbytes(r, 3)))
     ops = [one() for _ in range(r.choice([1, 2, 3, ndds + 1]))]
     if len(ops) >= 2 and r.random() < 0.3:
@@ -335,6 +360,14 @@ def model_ops(s):
             out.append("putn %s %d %s" % (t[1], 0 if t[2] == "-" else len(t[2]) // 2, t[2]))
         elif t[0] == "del":
             out.append(o)
+        elif t[0] == "get":
+            out.append("get")
+        elif t[0] == "cp":
+            src = [b.split() for b in s["base"] if b.split()[0] == "put" and b.split()[1:3] == t[3:5]]
+            if not src or len(src[0]) < 4:
+                return None
+            hx = src[0][3]
+            out.append("copy %s %s %d %s" % (t[1], t[2], 0 if hx == "-" else len(hx) // 2, hx))
         elif t[0] == "sync":
             out.append("sync")
         else:
